@@ -29,6 +29,16 @@ func C04(c *Ctx) int {
 		}
 	}
 	gen.MergedArrival = false
+	// the same decision tables with the sequenceFlow elements written in reverse document order:
+	// "the first, in the order the gateway lists its outgoing flows"
+	for k := 2; k <= 3; k++ {
+		for dpos := -1; dpos <= k; dpos += 2 {
+			p := gen.GatewayTable("xor", k, dpos, 1, -1)
+			p.Name += "_rev"
+			p.Tags = append(p.Tags, "flows-reversed")
+			ps = append(ps, p)
+		}
+	}
 	capN := 0
 	if c.Quick() {
 		capN = 24
